@@ -49,3 +49,46 @@ Example C17_runs :
          (fun i => nth i [1;2;3;4;5; 0;6;7;8;9]%Z 0%Z) (fun _ => 7%Z)) (seq 0 16)
   = [1;2;3;4;5; 2;22;27;32;37; 4;38;47;56;65; 7]%Z.
 Proof. vm_compute. reflexivity. Qed.
+
+(** * Tie to the source by translation (lib/cxx2v.py, re-run on every check) *)
+From FastorV Require Import Base.Tiling Gen.Generated Proofs.GenEq.
+
+(** [find_kfirst] / [find_klast] of tmatmul.h, as translated on this run, are the model's *)
+Theorem C17_source_krange :
+  forall tl tr K R C i j,
+    gen_find_kfirst tl tr i j = find_kfirst tl tr i j /\
+    gen_find_klast tl tr K R C i j = find_klast tl tr K R C i j.
+Proof. intros. exact (conj (gen_find_kfirst_eq tl tr i j) (gen_find_klast_eq tl tr K R C i j)). Qed.
+Print Assumptions C17_source_krange.
+
+(** so the clipping theorem holds of the translated functions *)
+Theorem C17_klip_sound_source :
+  forall (S : Scalar), RingLaws S ->
+  forall tl tr M K N (a b : nat -> S) i R j C r c k,
+    lhs_tri tl M K a -> rhs_tri tr K N b ->
+    r < M -> c < N -> k < K -> i <= r < i + R -> j <= c < j + C ->
+    ~ (gen_find_kfirst tl tr i j <= k < gen_find_klast tl tr K R C i j) ->
+    smul S (a (r * K + k)) (b (k * N + c)) = s0 S.
+Proof.
+  intros S HS tl tr M K N a b i R j C r c k. rewrite gen_find_kfirst_eq, gen_find_klast_eq.
+  exact (klip_sound S HS tl tr M K N a b i R j C r c k).
+Qed.
+Print Assumptions C17_klip_sound_source.
+
+(** block constants, loops and call sites of [_tmatmul_base] / [_tmatmul_base_masked]
+    (including which call sites pass the triangular tags and the extents given to the
+    inline k-range computations) are those of the model's [tmatmul_tiles] *)
+Theorem C17_source_blocking :
+  forall c W M K N,
+    gen_tmbase_consts (outer_block c) (inner_block c) W M K N = model_consts c W M N /\
+    gen_tmbase_masked_consts (outer_block c) (inner_block c) W M K N = model_consts c W M N /\
+    gen_tmbase_loops (outer_block c) (inner_block c) W M K N = model_loops c W M N false /\
+    gen_tmbase_masked_loops (outer_block c) (inner_block c) W M K N = model_loops c W M N true /\
+    gen_tmbase_calls (outer_block c) (inner_block c) W M K N = model_tm_calls c W M N false /\
+    gen_tmbase_masked_calls (outer_block c) (inner_block c) W M K N = model_tm_calls c W M N true.
+Proof.
+  intros. exact (conj (gen_tmbase_consts_eq c W M K N) (conj (gen_tmbase_masked_consts_eq c W M K N)
+    (conj (gen_tmbase_loops_eq c W M K N) (conj (gen_tmbase_masked_loops_eq c W M K N)
+    (conj (gen_tmbase_calls_eq c W M K N) (gen_tmbase_masked_calls_eq c W M K N)))))).
+Qed.
+Print Assumptions C17_source_blocking.
